@@ -122,9 +122,12 @@ impl Runtime {
 
     pub fn push(&self, task: &Arc<Task>) {
         debug!("scheduler::push  task={:?}", task);
-        self.cache
-            .upsert(task)
-            .unwrap_or_else(|err| panic!("fail to upsert task({}): {}", task.id, err));
+        // the process can be finished and removed while one of its tasks is still on the way,
+        // such a task is dropped (a panic here would end the scheduler loop for every process)
+        if let Err(err) = self.cache.upsert(task) {
+            error!("fail to upsert task({}): {}", task.id, err);
+            return;
+        }
         self.scher.push(task);
     }
 
